@@ -463,7 +463,9 @@ def _greedy_cases(tier):
             scores.append(row)
         in_lens = draw(st.one_of(st.lists(st.integers(0, T), min_size=N, max_size=N), st.none()))
         return {"V": V, "N": N, "T": T, "blank": blank, "is_probs": is_probs, "batch_first": draw(st.booleans()),
-                "scores": scores, "in_lens": in_lens, "module": draw(st.booleans())}
+                "scores": scores, "in_lens": in_lens, "module": draw(st.booleans()),
+                # what batching code leaves in the frames past an element's length (pad_sequence with -inf, uninitialised memory)
+                "pad_fill": draw(st.sampled_from([None, None, "-inf", "nan", "inf", 1e30]))}
 
     return _s()
 
@@ -472,7 +474,8 @@ def _greedy_cases(tier):
           doc="ctc_greedy_search (T 0..6|9, V 1..4, N 1..3, in_lens unset/mixed incl. 0, every blank index incl. negative, both layouts, "
               "logits or probabilities; per frame distinct scores so the arg-max is unique) vs loop: arg-max per valid frame, collapse "
               "repeats, drop blanks, summed (multiplied) best scores",
-          required_classes=["repeat_separated_by_blank", "mixed_lens", "is_probs", "batch_first", "negative_blank", "repeat_collapsed"])
+          required_classes=["repeat_separated_by_blank", "mixed_lens", "is_probs", "batch_first", "negative_blank", "repeat_collapsed",
+                            "non_finite_fill_past_length"])
 def _greedy_check(case):
     import torch
     from pydrobert.torch.functional import ctc_greedy_search
@@ -485,6 +488,12 @@ def _greedy_check(case):
     else:
         vals = [[[v / 4 for v in f] for f in row] for row in case["scores"]]
     x = torch.tensor(vals, dtype=torch.float32).view(N, T, V)
+    filled = False
+    if case.get("pad_fill") is not None and case["in_lens"] is not None:
+        for n in range(N):
+            if case["in_lens"][n] < T:
+                x[n, case["in_lens"][n]:] = float(case["pad_fill"])
+                filled = True
     if not case["batch_first"]:
         x = x.transpose(0, 1).contiguous()
     in_lens = None if case["in_lens"] is None else torch.tensor(case["in_lens"], dtype=torch.long)
@@ -534,4 +543,6 @@ def _greedy_check(case):
         cl.add("negative_blank")
     if T == 0:
         cl.add("T_0")
+    if filled:
+        cl.add("non_finite_fill_past_length")
     return Info(nontrivial="repeat_separated_by_blank" in cl, classes=sorted(cl))
